@@ -1,4 +1,4 @@
-from bisect import bisect
+from bisect import bisect, bisect_left
 from decimal import Decimal
 from enum import IntEnum
 from functools import total_ordering
@@ -158,6 +158,7 @@ class TimingEngine:
     timing_data: TimingData
     _tagged_beats: MutableSequence[Tuple[Beat, EventTag]]
     _tagged_times: MutableSequence[Tuple[SongTime, EventTag]]
+    _times: MutableSequence[SongTime]
     _state_machine: TimingStateMachine
 
     def __init__(self, timing_data: TimingData):
@@ -259,6 +260,7 @@ class TimingEngine:
                 cast(List[TimingState], self._state_machine),
             )
         )
+        self._times = [time for (time, _) in self._tagged_times]
 
     def bpm_at(self, beat: Beat) -> Decimal:
         """
@@ -356,10 +358,16 @@ class TimingEngine:
         Keep in mind that this situation is floating-point precise, so
         it's unlikely for the `event_tag` to ever make a difference.
         """
-        tagged_time = (time, event_tag)
-
+        # States that share a song time (a stop or delay on a warp, a warp
+        # segment itself) are listed in event order, so the (time, tag) pairs
+        # are not sorted and can't be bisected; the times alone are. WARP asks
+        # for the beat reached just before everything that happens at this
+        # time, any other tag for the furthest beat reached at this time.
         # Same caveat as `time_at`
-        prior_state_index = max(0, bisect(self._tagged_times, tagged_time) - 1)
+        if event_tag == EventTag.WARP:
+            prior_state_index = max(0, bisect_left(self._times, time) - 1)
+        else:
+            prior_state_index = max(0, bisect(self._times, time) - 1)
         prior_state: TimingState = self._state_machine[prior_state_index]
         prior_state_beat = prior_state.event.beat
 
